@@ -133,8 +133,8 @@ theorem popt_presplit {m c i a} (h : POpt m c i a) (t : Tok) :
   have hci : (m.completed c i a).curIsInitial = m.curIsInitial := rfl
   have hne : ¬ (St.context = St.unknown) := by decide
   have hgl : isGlued (m.completed c i a) t = isGlued m t := by
-    unfold isGlued ctxFlag
-    simp only [hst', h.st, hc, hc']
+    unfold isGlued gluedFlag
+    simp only [hst', h.st, hc, hc', hini, hci, h.notInit]
     rw [if_neg hne, if_neg hne]
     rcases setArg_lookup_rel c i a h.hai (t.take 2) with ⟨h1, h2⟩ | ⟨b, b', h1, h2, h3⟩
     · rw [h1, h2]
